@@ -163,6 +163,8 @@ const ALPHABETS: &[Alphabet] = &[
         k_quick: 3,
         k_thorough: 4,
     },
+    // blanks that are not BASIC blanks: vertical tab, form feed, no-break space, ideographic space
+    Alphabet { name: "blanks", symbols: &[" ", "\t", "\u{b}", "\u{c}", "\u{a0}", "\u{3000}", "A", "1", "\"", "'", ":", "REM", "="], k_quick: 4, k_thorough: 5 },
 ];
 
 fn enumerate_alphabet(a: &Alphabet, part: usize, parts: usize, thorough: bool, emit: &mut dyn FnMut(&str)) {
@@ -200,6 +202,10 @@ fn gen_letters(p: usize, n: usize, th: bool, e: &mut dyn FnMut(&str)) {
 }
 fn gen_words(p: usize, n: usize, th: bool, e: &mut dyn FnMut(&str)) {
     enumerate_alphabet(&ALPHABETS[3], p, n, th, e)
+}
+
+fn gen_blanks(p: usize, n: usize, th: bool, e: &mut dyn FnMut(&str)) {
+    enumerate_alphabet(&ALPHABETS[4], p, n, th, e)
 }
 
 fn check_item(item: &str, ctx: &Ctx) -> Outcome {
@@ -290,11 +296,26 @@ fn gen_corpus(part: usize, parts: usize, _th: bool, emit: &mut dyn FnMut(&str)) 
     }
 }
 
+/// Entry point of the libFuzzer target: the input bytes are one source line.
+pub fn fuzz_line(data: &[u8]) -> Option<String> {
+    let s = match std::str::from_utf8(data) {
+        Ok(s) => s,
+        Err(_) => return None,
+    };
+    if s.contains('\n') || s.contains('\r') || s.len() > 1100 {
+        return None;
+    }
+    match roundtrip(s, false) {
+        Ok(_) => None,
+        Err((clause, detail)) => Some(format!("{}: {}", clause, detail)),
+    }
+}
+
 pub fn property() -> Property {
     Property {
         id: "C05",
         rule: "Cases: (a) exhaustively all strings of <= k symbols (k = 3..4 quick, 4..6 thorough) over four lexically significant alphabets — number characters (digits . E D e d + - ! # % $ & H), \
-relational/punctuation characters, the letters of GO TO SUB REM IF FN, and a word-level alphabet (GO TO SUB REM IF THEN ELSE FN PRINT DATA ' \" é 1E &H ...) — each embedded in six contexts \
+relational/punctuation characters, the letters of GO TO SUB REM IF FN, blanks that are not BASIC blanks (vertical tab, form feed, no-break and ideographic space), and a word-level alphabet (GO TO SUB REM IF THEN ELSE FN PRINT DATA ' \" é 1E &H ...) — each embedded in six contexts \
 (`10 •`, `10 ?•`, `10 A=•`, `10 IF • THEN 20`, direct, `10 ?1•;2`); (b) proptest-generated long lines: token soup, mutated and re-spelled statement snippets, arbitrary UTF-8, lines at the 1024-byte limit; \
 (c) a corpus of lines from the repository's tests and earlier findings. Oracle (round trip): t1 = Line::new(s).to_string(), t2 = Line::new(t1).to_string(): same line number; column-free AST of s and t1 equal, or both rejected; \
 t2 == t1 when accepted; string literals and remark texts equal; Listing::load_str(t1) reproduces t1; for generated lines also the runtime's LIST event equals t1. \
@@ -310,6 +331,7 @@ Non-trivial: >= 2 tokens and (the lister changed the text, or the line holds a l
             Sub::items("exhaustive_relational", gen_relational, check_item, true),
             Sub::items("exhaustive_letters", gen_letters, check_item, true),
             Sub::items("exhaustive_words", gen_words, check_item, true),
+            Sub::items("exhaustive_blanks", gen_blanks, check_item, true),
             Sub::tape("random_lines", check_random, 200_000, 8_000_000, 200),
         ],
     }
